@@ -23,6 +23,7 @@ EXPLANATION = (
     ' Round 4: (12) LOOPFRESH on the per-line state of _calculate_trimmed_segments / apply_text_layout; (13) a segment measured with calc_width is measured over its own offsets; (14) the str and the UTF-8 column searches leave their scan loop under the same condition.'
     ' Round 6: the width helpers the layout relies on are checked here too (shared with C11): (16) within_double_byte tests exactly the lead / trail byte ranges of the double-byte encodings; (17) calc_width counts str text per character, never as the plain offset difference; (18) invalid UTF-8 is measured with decode_one as the offset functions walk it.'
     ' Round 8: (19) MEMO: no lru_cache-decorated measuring function reads a rebindable global (C11.15); (20) RUNPOS: pad segments are non-zero (C01.30).'
+    ' Round-8 triage: (21) ORDER: a width-keyed memo stores its key after the value it describes (fix 1a1af51).'
 )
 NOT_DECIDED = (
     "Completeness and non-duplication of characters as a value statement, that no laid-out line spans a hard newline, fill-optimality of 'any' wrapping, break-at-space-whenever-possible, "
